@@ -54,6 +54,20 @@ for pid,(design,what) in BEHAVE.items():
         text="Each generated type is rendered with an oracle written from the documented semantics (sharing no code with educe) and an observer that enumerates values and checks every pair/triple; failures shrink through proptest to a minimal definition. "+what+".",
         note="value domains are small by design (2-4 values per field, every single-field variation present); x86-64, rustc 1.95 debug build; requests hitting an open compile-level finding of C01 are excluded by construction and counted")
 CHECKS = dict(sorted(CHECKS.items()))
+
+CHECKS["C11"] = dict(engine="R", design="5/C11",
+    technique="property-based testing with a reference model: generated generic types probed with compile-time trait-resolution tests for every Yes/NoX instantiation, expected value from a model of delegated fields and std's documented impls (self-validated)",
+    text="For generated generic types and every instantiation of their parameters with marker types that do or do not implement the trait, `Type<Args>: Trait` is evaluated by the compiler and compared with the model: all delegated fields implement the required trait and educed supertraits apply.",
+    note="the std-impl table covers ten type constructors and probes itself in the same program (a disagreement is exit 2); requests hitting an open C01 finding are excluded")
+CHECKS["C18"] = dict(engine="C+P", design="5/C18",
+    technique="configuration enumeration + property-based differential testing: feature subsets built with cargo (all 4096 in the thorough tier), subset-built driver vs all-features expansion over generated requests",
+    text="Build half: cargo check of /repo with exactly the subset must succeed warning-free (empty set: explicit message). Behaviour half: the subject compiled with the subset must expand generated requests over enabled traits to the same tokens as the all-features build and refuse disabled traits as unsupported. Thorough tier is exhaustive over subsets.",
+    note="quick tier samples ~100 subsets for the build half and ~19 for the behaviour half; per-worker cargo target directories under /verif/target/feat-*")
+CHECKS["C19"] = dict(engine="R+P", design="5/C19",
+    technique="property-based differential testing across naming environments: C02-C08 observers re-run with user identifiers harvested from educe's own output, inside a prelude-shadowing module, and in a #![no_std] crate",
+    text="The generated types and oracles of C02, C03, C05, C06, C07, C08 are re-generated with hostile identifiers (harvested each run from the expansion itself) and in a module that shadows Option/Some/None/Result/Ordering/Clone/... ; they must compile warning-free and behave as in the neutral context. A no_std library lane compiles generated requests without std.",
+    note="macros are not shadowed; the type's own name is not drawn from the hostile pool (the statement lists field, variant, lifetime, const- and type-parameter names)")
+CHECKS = dict(sorted(CHECKS.items()))
 ALL = ["C%02d" % i for i in range(1, 21)]
 
 def main():
@@ -84,6 +98,7 @@ def main():
         "engines": [
             {"name": "R", "path": "harness/vcheck/src/engine.rs", "kind_free_text": "real rustc driving the shipping proc macro rebuilt from /repo; batches of generated types with rendered oracles and observers"},
             {"name": "P", "path": "harness/vcheck/src/engine.rs", "kind_free_text": "in-process expansion through the cfg-guarded verif_expand hook"},
+            {"name": "C", "path": "harness/vcheck/src/props/c18.rs", "kind_free_text": "feature-configuration builder: cargo check of /repo and a subset-built in-process driver (harness/featdrv) per feature subset"},
         ],
         "checks": checks,
         "not_applicable": na,
